@@ -231,5 +231,27 @@ func buildReservedNames(
 		reserved[field.Desc.JSONName()] = fmt.Sprintf("parent field %q", field.Desc.Name())
 	}
 
+	// Another discriminated oneof of the same message puts its discriminator, and when it is
+	// flattened the fields of its variants, at the same level
+	for _, other := range message.Oneofs {
+		otherConfig := GetOneofConfig(other)
+		if other == oneof || otherConfig == nil {
+			continue
+		}
+		reserved[otherConfig.GetDiscriminator()] = fmt.Sprintf("discriminator of oneof %q", other.Desc.Name())
+		if !otherConfig.GetFlatten() {
+			continue
+		}
+		for _, variant := range other.Fields {
+			if variant.Message == nil {
+				continue
+			}
+			for _, child := range variant.Message.Fields {
+				reserved[child.Desc.JSONName()] = fmt.Sprintf(
+					"field %q of variant %q of oneof %q", child.Desc.Name(), variant.Desc.Name(), other.Desc.Name())
+			}
+		}
+	}
+
 	return reserved
 }
